@@ -10,13 +10,19 @@
 EXTENDS Integers, Sequences, Json, IOUtils, TLC, TLCExt
 
 Tr == ndJsonDeserialize(IOEnv.TRACE)
-VARIABLES l, pend, pool, ncpu
-tvars == <<l, pend, pool, ncpu>>
+VARIABLES l, pend, pool, ncpu,
+          starts, exits      \* pool threads that began _dispatch_worker_thread / gave their budget unit back at exit
+tvars == <<l, pend, pool, ncpu, starts, exits>>
 Rec == Tr[l]
-TInit == l = 2 /\ pend = 0 /\ pool = 0 /\ ncpu = 0 /\ TLCSet(1, 0)
+TInit == l = 2 /\ pend = 0 /\ pool = 0 /\ ncpu = 0 /\ starts = 0 /\ exits = 0 /\ TLCSet(1, 0)
 Consume == l' = l + 1
 TReset == /\ l <= Len(Tr) /\ Rec.e = "Reset" /\ Consume /\ pend' = Rec.pending /\ pool' = Rec.pool /\ ncpu' = Rec.ncpu
-TOther == /\ l <= Len(Tr) /\ Rec.e \notin {"Reset", "Rq"} /\ Consume /\ UNCHANGED <<pend, pool, ncpu>>
+          /\ starts' = Rec.ncpu - Rec.pool /\ exits' = 0      \* threads alive when recording starts hold the missing budget
+\* after every pool thread had time to hit its park timeout: all have exited and returned their unit
+TIdle == /\ l <= Len(Tr) /\ Rec.e = "IdleQuiesce" /\ Consume
+         /\ exits = starts /\ pool = ncpu /\ pend = 0
+         /\ UNCHANGED <<pend, pool, ncpu, starts, exits>>
+TOther == /\ l <= Len(Tr) /\ Rec.e \notin {"Reset", "Rq", "IdleQuiesce"} /\ Consume /\ UNCHANGED <<pend, pool, ncpu, starts, exits>>
 MAXTIDS == 255
 Cur == IF Rec.w = "pending" THEN pend ELSE pool
 Legal ==
@@ -35,7 +41,9 @@ TRq == /\ l <= Len(Tr) /\ Rec.e = "Rq" /\ Consume
        /\ Rec.old = Cur /\ Legal
        /\ IF Rec.w = "pending" THEN pend' = Rec.new /\ pool' = pool ELSE pool' = Rec.new /\ pend' = pend
        /\ ncpu' = ncpu
-TNext == TReset \/ TOther \/ TRq
+       /\ starts' = IF Rec.f = "_dispatch_worker_thread" /\ Rec.w = "pending" /\ Rec.op = "sub" THEN starts + 1 ELSE starts
+       /\ exits' = IF Rec.f = "_dispatch_worker_thread" /\ Rec.w = "pool" /\ Rec.op = "add" THEN exits + 1 ELSE exits
+TNext == TReset \/ TOther \/ TIdle \/ TRq
 TSpec == TInit /\ [][TNext]_tvars
 PoolAccountingOK == pend >= 0 /\ (ncpu > 0 => (pool <= ncpu /\ pool >= ncpu - MAXTIDS))
 MaxL == IF TLCGet(1) < l THEN TLCSet(1, l) ELSE TRUE
